@@ -160,6 +160,16 @@ func (c *FnCtx) genCandidates(li *loopInfo) []*candidate {
 			}
 		}
 	}
+	// int variable == number of keys a map iterator has produced
+	for h := range li.writes {
+		if strings.HasPrefix(h, "IT_") && strings.HasSuffix(h, "_cnt") {
+			for _, x := range ints {
+				if !strings.Contains(x, ".") {
+					out = append(out, &candidate{text: x + " == keys produced by the map iterator", iterVar: h, iterName: x, alive: true})
+				}
+			}
+		}
+	}
 	for _, t := range texts {
 		e, err := parseExpr(t)
 		if err != nil {
